@@ -28,7 +28,7 @@ TARGETS = [
     Target('do_extract_front', CPP, r'ssize_t do_extract_front\(size_t bytes, const CB& cb\)', rules=[
         (r'(?<![\w>.])empty\(\)', 'iovv_empty(this)', 1),
         (r'auto& v = front\(\);', 'XF_TOP struct iovec *v = iovv_front(this);', 1),
-        (r'\bv\.', 'v->', 8),
+        (r'\bv\.', 'v->', 1),
         (r'\(char\*&\)(v->iov_base) \+= (\w+);', r'\1 = (char*)\1 + \2;', 1),
         (r'(?<![\w>.])pop_front\(\)', 'iovv_pop_front(this)', 2),
         (r'(?<![\w>.])cb\(', 'CB(', 2),
@@ -50,7 +50,7 @@ TARGETS = [
     Target('do_extract_back', CPP, r'ssize_t do_extract_back\(size_t bytes, const CB& cb\)', rules=[
         (r'(?<![\w>.])empty\(\)', 'iovv_empty(this)', 1),
         (r'auto& v = back\(\);', 'XB_TOP struct iovec *v = iovv_back(this);', 1),
-        (r'\bv\.', 'v->', 8),
+        (r'\bv\.', 'v->', 1),
         (r'(?<![\w>.])pop_back\(\)', 'iovv_pop_back(this)', 2),
         (r'(?<![\w>.])cb\(', 'CB(', 2),
         (r'return bytes0 - bytes;', 'G_J = this->iovcnt; return bytes0 - bytes;', 1)],
